@@ -133,6 +133,17 @@ impl Registry {
                     write!(output, "{}", value)?;
                 }
             }
+            ConstValue::List(items) => {
+                // the items have the list's (concrete) type: secret fields inside them stay hidden
+                output.push('[');
+                for (idx, item) in items.iter().enumerate() {
+                    if idx > 0 {
+                        output.push_str(", ");
+                    }
+                    self.stringify_input_value(output, meta_input_value, item)?;
+                }
+                output.push(']');
+            }
             _ => write!(output, "{}", value)?,
         }
 
@@ -202,7 +213,8 @@ impl Registry {
                         write!(output, "on {} ", name.node.on.node)?;
                         self.types.get(name.node.on.node.as_str())
                     } else {
-                        None
+                        // no type condition: the selection stays on the parent type
+                        parent_type
                     };
                     self.stringify_selection_set(
                         output,
